@@ -3,6 +3,7 @@ C09 — creation is all-or-nothing at the destination path.
 (the discipline theorems are added from Lemmas/AtomicFs.lean)
 -/
 import JubakoModel.Model.AtomicFs
+import JubakoModel.Lemmas.AtomicFs
 
 namespace Jubako
 
@@ -10,5 +11,54 @@ namespace Jubako
 theorem c09_crash_is_prefix (fs : FSt) (t : List FsOp) (k : Nat) :
     (fs.run (t.take k)).run (t.drop k) = fs.run t := by
   simp only [FSt.run, ← List.foldl_append, List.take_append_drop]
+
+
+/-- **All-or-nothing at every final path**, for every disciplined trace, every crash point `k`
+    (the process dies after the k-th file-system operation) and every initial file system: a
+    non-temporary path holds what it held before the run, or the *complete* content of the
+    temporary that was renamed onto it — every write that temporary receives in the whole run, never
+    a partial file. -/
+theorem c09_all_or_nothing {isTemp : FPath → Bool} {entry : FPath} {old : FSt} {t : List FsOp}
+    (hd : Discipline isTemp entry (old.files.map (·.1)) t = true) (k : Nat) (d : FPath)
+    (hdt : isTemp d = false) :
+    (old.run (t.take k)).get d = old.get d ∨
+      ∃ src, (src, d) ∈ renamesOf (t.take k) ∧ (old.run (t.take k)).get d = some (allWritesTo src t) :=
+  atomic_final hd k d hdt
+
+/-- **The entry-point never appears before the pack files it refers to are complete**: at any
+    crash point at which the entry-point has already been renamed, every rename of the whole run
+    has already happened and every final path holds its complete content. -/
+theorem c09_entry_point_last {isTemp : FPath → Bool} {entry : FPath} {old : FSt} {t : List FsOp}
+    (hd : Discipline isTemp entry (old.files.map (·.1)) t = true) (k : Nat) (src : FPath)
+    (h : (src, entry) ∈ renamesOf (t.take k)) :
+    ∀ s' d', (s', d') ∈ renamesOf t →
+      (s', d') ∈ renamesOf (t.take k) ∧ (old.run (t.take k)).get d' = some (allWritesTo s' t) :=
+  entry_last hd k src h
+
+/-- a temporary receives all its writes before it is renamed -/
+theorem c09_writes_before_rename {isTemp : FPath → Bool} {entry : FPath} {old : FSt} {t : List FsOp}
+    (hd : Discipline isTemp entry (old.files.map (·.1)) t = true) :
+    ∀ (i j : Nat) (src dst : FPath) (tok : Nat),
+      t[i]? = some (FsOp.rename src dst) → t[j]? = some (FsOp.write src tok) → j < i :=
+  writes_before_rename hd
+
+/-- **Error return**: a run that ends with every temporary unlinked (what `NamedTempFile::drop`
+    does on the error path) leaves no temporary file of this run behind. -/
+theorem c09_error_return_clean {isTemp : FPath → Bool} {entry : FPath} {old : FSt} {t : List FsOp}
+    (hd : Discipline isTemp entry (old.files.map (·.1)) t = true) (dsf : DiscSt)
+    (hrun : discRun isTemp entry (old.files.map (·.1)) ⟨[], [], [], false⟩ t = some dsf)
+    (hfin : dsf.live = []) :
+    ∀ p, isTemp p = true → p ∈ dsf.created → (old.run t).get p = none :=
+  no_stray_temps hd dsf hrun hfin
+
+/-- every prefix of a disciplined trace is disciplined (a crash never turns a good run into a bad
+    one) -/
+theorem c09_prefix_disciplined (isTemp : FPath → Bool) (entry : FPath) (oldPaths : List FPath)
+    (t : List FsOp) (k : Nat) (h : Discipline isTemp entry oldPaths t = true) :
+    Discipline isTemp entry oldPaths (t.take k) = true := discipline_take isTemp entry oldPaths t k h
+
+/-- non-vacuity: the creator's shape of run is disciplined; entry-point first is rejected -/
+example : Discipline exIsTemp "out.jbk" [] exTrace = true := exTrace_disciplined
+example : Discipline exIsTemp "out.jbk" [] exTraceBad = false := exTraceBad_rejected
 
 end Jubako
